@@ -29,14 +29,36 @@ def oracle(ctx, cmds, routs):
     return True
 
 
-def history(adds):
+def history(adds, rng=None):
     cmds = []
     for a in adds:
         cmds.append(a)
+        if rng is not None and rng.random() < 0.5:
+            # observations between updates: exports, resolutions, need_calibration (must not influence anything)
+            cmds.append(rng.choice([{"k": "get"}, {"k": "need_cal"}]))
+            cmds += rng.sample(fr.queries(), 4)
     cmds.append({"k": "get"})
     cmds += fr.queries()
     cmds.append({"k": "get"})  # resolution must not change the recipe
     return cmds
+
+
+def check_fresh(ctx, cmds, routs):
+    """resolution and export are pure functions of the rule list: a fresh Quantizer that only replays the
+    updates (no observations in between) gives the same final export and the same resolutions"""
+    adds = [c for c in cmds if c["k"] == "add"]
+    tail = [{"k": "get"}] + fr.queries()
+    fresh = fr.RealRecipe()
+    for a in adds:
+        fresh.step(a)
+    fouts = [fresh.step(c) for c in tail]
+    n = len(tail)
+    # the history ends with: get, queries..., get
+    mine = routs[-(n + 1):-1]
+    if json.dumps(mine) != json.dumps(fouts):
+        k = next(i for i, (x, y) in enumerate(zip(mine, fouts)) if json.dumps(x) != json.dumps(y))
+        ctx.fail("the recipe / resolution depends on observations made between updates (not a pure function of the rule list)",
+                 {"cmds": cmds, "step": tail[k], "got": mine[k], "fresh": fouts[k]}, "history-dependent")
 
 
 def check_pure(ctx, cmds, routs):
@@ -91,16 +113,35 @@ def run(ctx):
     else:
         ctx.exhaustive = True
     ctx.extra["exhaustive_histories_len_le_2"] = n_ex
+    # '*' reset after observations: every ordered pair of configs, all queries in between (a support verdict
+    # remembered from before the reset must not survive it)
+    n_pairs = 0
+    for (na, ca), (nb, cb) in itertools.product(fr.CFG_ALPHABET, fr.CFG_ALPHABET):
+        if na == nb or ctx.left() < 45 or na.startswith("ctor") or nb.startswith("ctor"):
+            continue
+        if ctx.tier == "quick" and (hash((na, nb, ctx.seed)) % 3):
+            continue
+        alg_a = "float_casting" if na == "fp16" else "min_max_uniform_quantize"
+        alg_b = "float_casting" if nb == "fp16" else "min_max_uniform_quantize"
+        cmds = [{"k": "add", "regex": ".*", "operation": "*", "cfg": ca, "alg": alg_a}] + fr.queries(scopes=["a;"]) + \
+               [{"k": "add", "regex": ".*", "operation": "*", "cfg": cb, "alg": alg_b}, {"k": "get"}] + fr.queries() + [{"k": "get"}]
+        routs, _ = fr.run_history(ctx, drv, cmds)
+        oracle(ctx, cmds, routs)
+        check_fresh(ctx, cmds, routs)
+        ctx.case({"star_reset": (na, nb)}, True)
+        n_pairs += 1
+    ctx.extra["star_reset_after_query_pairs"] = n_pairs
     # sampled longer histories over the full alphabet
     n = 150 if ctx.tier == "quick" else 3000
     for i in range(n):
         if ctx.left() < 20:
             break
         adds = [fr.gen_add(rng) for _ in range(rng.randint(3, 8))]
-        cmds = history(adds)
+        cmds = history(adds, rng if i % 2 else None)
         routs, _ = fr.run_history(ctx, drv, cmds)
         oracle(ctx, cmds, routs)
         check_pure(ctx, cmds, routs)
+        check_fresh(ctx, cmds, routs)
         ctx.case({"adds": [(x["regex"], x["operation"], x["alg"]) for x in adds]}, True)
         for c, r in zip(cmds, routs):
             if c["k"] == "add":
